@@ -478,7 +478,7 @@ def extra_c07(prop, tier, seed, profiles):
 ANIM_FLOORS = {"quick": {"op:adv": 800, "op:set": 300, "op:anim": 100}}
 PLANS["C04"] = dict(suites=[Suite("anim", 500, 30000)], floors=ANIM_FLOORS,
                     assumptions=["blend law of each timeline (BlendOK): built-in easings, per-property distinct keyframe positions, values exactly representable in f32 — the property's own hypotheses"])
-PLANS["C05"] = dict(suites=[Suite("anim", 500, 30000)], floors=ANIM_FLOORS,
+PLANS["C05"] = dict(suites=[Suite("anim", 500, 30000), Suite("merged", 100, 4000)], floors=ANIM_FLOORS,
                     assumptions=["internal time and pause record observed through the verif-hooks snapshot"])
 PLANS["C06"] = dict(suites=[Suite("anim6", 250, 15000), Suite("anim", 200, 8000)], floors={"quick": {"op:adv": 1500, "op:set": 200}},
                     assumptions=["StableWrites: the set of slots a timeline writes does not depend on time (true of built timelines)"])
